@@ -8,7 +8,7 @@ from ..fold import try_fold
 from ..util import stmts_with_env, calls_with_env, assignments_to, single_def, kwarg, str_constants
 from . import shared
 from .common import method, unconditional_in
-from .c02 import locate_writer
+from .c02 import locate_writer, printed_copy_columns
 
 PDB = 'vermouth/pdb/pdb.py'
 ITP = 'vermouth/gmx/itp.py'
@@ -274,12 +274,34 @@ def run(ck):
             ck.ob('SIB-sort-after-naming', cli.loc(c), not clash,
                   'atoms are re-sorted (by {}) after the molecule types were assigned; the type comparison ignores {}: two molecules sharing a type can end up '
                   'in different atom orders while only one ITP is written'.format(list(keys or ()), clash), key='SIB-sort-after-naming|' + ','.join(clash))
+    # ---- "same name only if identical topologies" must still hold when the files are written: what runs between the naming and the writers
+    AFTER_NAMING = {
+        'SortMoleculeAtoms': (True, 'reorders atoms only (which attributes it may sort by is the rule above)'),
+        'MergeAllMolecules': (True, 'leaves one molecule: nothing left to share a name with'),
+        'VirtualSiteCreator': (True, 'adds one site per backbone particle: a function of the molecule\'s own atoms, the same for identical molecules'),
+        'ComputeWaterBias': (True, 'adds site--water interactions from secondary structure and residue numbers, both compared by the naming'),
+        'Quoter': (True, 'changes nothing'),
+        'ApplyRubberBand': (False, 'adds bonds computed from the *coordinates*: two molecules that were identical when they were named (and share a name) get different '
+                                   'elastic networks, while one ITP -- the first molecule\'s -- is written for that name'),
+    }
+    if name_calls:
+        named_at = min(n.lineno for n in name_calls)
+        runs = [c for c in walk_local(ent) if isinstance(c, ast.Call) and call_attr(c) == 'run_system' and c.lineno > named_at]
+        for c in runs:
+            recv = c.func.value
+            cls_ = recv
+            if isinstance(recv, ast.Name):
+                cls_ = single_def(ent, recv.id)
+            cname = (call_name(cls_) or '').split('.')[-1] if isinstance(cls_, ast.Call) else u(recv).split('.')[-1]
+            okp, why = AFTER_NAMING.get(cname, (False, 'not triaged: a step that can change a molecule after the molecule types were named'))
+            ck.ob('SIB-edit-after-naming', cli.loc(c), okp, '{} runs after NameMolType: {}'.format(cname, why), key='SIB-edit-after-naming|' + cname)
     ck.note('molecule-level meta keys printed by the ITP writer (define, pre/post_section_lines) are not compared by share_moltype_with (outside what C03 states)')
     shared.pure_writer(ck, pdb, pw, [pw.args.args[0].arg])
     shared.pure_writer(ck, itp, iw, [iw.args.args[0].arg])
     shared.pure_writer(ck, top, wt, [wt.args.args[0].arg])
     shared.truthy_zero(ck, ['vermouth/molecule.py', 'vermouth/gmx/itp.py', 'vermouth/gmx/topology.py', 'vermouth/pdb/pdb.py', 'vermouth/processors/name_moltype.py',
                            'vermouth/processors/sort_molecule_atoms.py'])
+    printed_copy_columns(ck, 'SIB-atom-order')
     shared.sorted_nodes_rule(ck, 'SIB-atom-order')
     shared.runs_every_molecule(ck, 'vermouth/processors/sort_molecule_atoms.py', 'SortMoleculeAtoms', 'MPT-every-molecule')
     # both output files are written from the same state of the system: every step that changes molecules comes before the first writer
